@@ -433,6 +433,30 @@ Section Tie.
     construct f CSubsequence [pattern; offset; length] = src_PSubsequence_init (reset f) value f pattern offset length.
   Proof. reflexivity. Qed.
 
+  (** classes whose __next__ is outside the translated fragment: reset() and __init__ only *)
+  Lemma PReset_reset_src f pattern trigger : reset (S f) (PReset pattern trigger) = src_PReset_reset (reset f) value f pattern trigger.
+  Proof. reflexivity. Qed.
+  Lemma PReset_init_src f pattern trigger : construct f CReset [pattern; trigger] = src_PReset_init (reset f) value f pattern trigger.
+  Proof. reflexivity. Qed.
+  Lemma PIndexOf_reset_src f l i : reset (S f) (PIndexOf l i) = src_PIndexOf_reset (reset f) value f l i.
+  Proof. reflexivity. Qed.
+  Lemma PIndexOf_init_src f l i : construct f CIndexOf [l; i] = src_PIndexOf_init (reset f) value f l i.
+  Proof. reflexivity. Qed.
+  Lemma PConcatenate_reset_src f inputs pos : reset (S f) (PConcatenate inputs pos) = src_PConcatenate_reset (reset f) value f inputs pos.
+  Proof. reflexivity. Qed.
+  Lemma PConcatenate_init_src f inputs : construct f CConcatenate [inputs] = src_PConcatenate_init (reset f) value f inputs.
+  Proof. reflexivity. Qed.
+  Lemma PArrayIndex_reset_src f l i : reset (S f) (PArrayIndex l i) = src_PArrayIndex_reset (reset f) value f l i.
+  Proof. reflexivity. Qed.
+  Lemma PArrayIndex_init_src f l i : construct f CArrayIndex [l; i] = src_PArrayIndex_init (reset f) value f l i.
+  Proof. reflexivity. Qed.
+  Lemma PDictKey_reset_src f d k : reset (S f) (PDictKey d k) = src_PDictKey_reset (reset f) value f d k.
+  Proof. reflexivity. Qed.
+  Lemma PDictKey_init_src f d k : construct f CDictKey [d; k] = src_PDictKey_init (reset f) value f d k.
+  Proof. reflexivity. Qed.
+  Lemma PDict_reset_src f d : reset (S f) (PDict d) = src_PDict_reset (reset f) value f d.
+  Proof. reflexivity. Qed.
+
   (** * One call of __next__ / reset() as the source text defines it *)
 
   (* the translated body of the object's class applied to its fields; the children are run by the engine.  Classes the
@@ -584,6 +608,12 @@ Section Tie.
         | PDiff source current => src_PDiff_reset (reset f) value f source current
         | PSkipIf pattern skip => src_PSkipIf_reset (reset f) value f pattern skip
         | PWrap pattern mn mx => src_PWrap_reset (reset f) value f pattern mn mx
+        | PReset pattern trigger => src_PReset_reset (reset f) value f pattern trigger
+        | PIndexOf l i => src_PIndexOf_reset (reset f) value f l i
+        | PConcatenate inputs pos => src_PConcatenate_reset (reset f) value f inputs pos
+        | PArrayIndex l i => src_PArrayIndex_reset (reset f) value f l i
+        | PDictKey d k => src_PDictKey_reset (reset f) value f d k
+        | PDict d => src_PDict_reset (reset f) value f d
         | _ => reset fuel p
         end
     end.
